@@ -778,8 +778,9 @@ def check(tier: str, seed: int) -> int:
                         "reading), non-negativity / max bound for a non-negative unit-sum kernel (hypothesis), the -3 dB "
                         "constant exp(-(bw e-3)^2/fc^2) = 1/2 over the reals, the integer length / padding / slicing "
                         "arithmetic of Channel.modulate, Waveform.modulated_samples, ChannelSamples.modulate and "
-                        "sample(modulation=True), and success of modulated sampling with numpy's empty edge-pad error "
-                        "modelled exactly (F14). The polymorphic model is run with Float (pm_mod, naive DFT) against "
+                        "sample(modulation=True), and success of modulated sampling on every channel, empty ones "
+                        "included (the guarded edge padding of /repo d9bdcf58 is mirrored; modulate_empty_old "
+                        "states what the unguarded code did, F14). The polymorphic model is run with Float (pm_mod, naive DFT) against "
                         "the real code to 1e-9; the ripple-dependent and fall-time clauses are validated numerically "
                         "by the monitor only (uncovered_clauses).",
             uncovered_clauses=UNCOVERED,
